@@ -294,6 +294,18 @@ def run_property(prop, tier, seed, root):
                               "why": "refuted in the abstraction, not reproduced on the real code, and not a baseline obligation"})
         else:
             violations.append(f)
+    # an obligation the solvers leave open *inside the case of a known finding* (same contract, name matching the
+    # finding's pattern) belongs to that finding: the case is already reported as violated
+    kept = []
+    in_known_case = 0
+    for ud in undecided:
+        ob = ud.get("obligation", "")
+        if ob and any((prop in ([k.get("property")] + list(k.get("also_under", [])))) and re.search(k["match"].get("contract", ""), ud.get("contract", ""))
+                      and k["match"].get("what") and re.search(k["match"]["what"], ob) for k in known) and any(h for h in known_hits):
+            in_known_case += 1
+        else:
+            kept.append(ud)
+    undecided = kept
     # ---- report
     os.makedirs(os.path.join(HERE, "replays"), exist_ok=True)
     tid = tree_id(root)
